@@ -268,3 +268,5 @@ type cryptoRand struct{}
 func (cryptoRand) Read(p []byte) (int, error) { return crand(p) }
 
 func validUTF8(s string) bool { return utf8.ValidString(s) }
+
+func edKeyFromSeed(seed []byte) ed25519.PrivateKey { return ed25519.NewKeyFromSeed(seed) }
